@@ -303,6 +303,22 @@ def segment_cases(run, rows, cheetah, n):
     for i in range(n):
         lat = realgen.gen_lattice(run.rng, n_max=5, depth=run.rng.choice([0, 1, 2, 3]))
         J.uniquify(lat)
+        if run.rng.random() < 0.35:
+            # Segment explicitly supports several elements with one name (kept as a list under that attribute): give two or three
+            # DIFFERENT leaf elements the same name, so that a clone that identifies elements by name is exposed
+            leaves = []
+
+            def collect(e):
+                if e["cls"] == "Segment":
+                    for c in e["es"]:
+                        collect(c)
+                else:
+                    leaves.append(e)
+            collect(lat)
+            if len(leaves) >= 2:
+                for e in run.rng.sample(leaves, min(len(leaves), run.rng.choice([2, 3]))):
+                    e["name"] = "shared_name"
+                run.count("segment_with_duplicate_names")
         dtype = run.rng.choice([torch.float32, torch.float64])
         if run.rng.random() < 0.3:
             J.vectorise(run.rng, lat, 3)
